@@ -31,6 +31,26 @@ ASSUME \A c \in LimCases : (c.sl * c.lo < c.su * c.hi) => c.exp.zu + c.exp.zl + 
 DegenerateCases == {c \in LimCases : c.exp.zu + c.exp.zl + c.exp.zi # 1}
 ASSUME \A c \in DegenerateCases : c.sl * c.lo >= c.su * c.hi
 
+(* ---------------- dead band with return flags (DeadBandRT), band (-1, 1), strict comparisons ---------------- *)
+(* zur: the input is inside the band and came back from above; zlr: from below; held while it stays inside;      *)
+(* cleared when it leaves.  A history is a sequence of input values (in halves); all flags start at zero.        *)
+RTStep(prev, x) ==
+    LET zu == B(x > 2)
+        zl == B(x < -2)
+        zi == B(zu = 0 /\ zl = 0)
+        hold == prev.zi = zi
+    IN [zu |-> zu, zl |-> zl, zi |-> zi,
+        zur |-> IF prev.zu = 1 /\ zi = 1 THEN 1 ELSE IF hold THEN prev.zur ELSE 0,
+        zlr |-> IF prev.zl = 1 /\ zi = 1 THEN 1 ELSE IF hold THEN prev.zlr ELSE 0]
+RECURSIVE RTRun(_, _, _)
+RTRun(h, k, prev) == IF k > Len(h) THEN <<>> ELSE LET nx == RTStep(prev, h[k]) IN <<nx>> \o RTRun(h, k + 1, nx)
+RTZero == [zu |-> 0, zl |-> 0, zi |-> 0, zur |-> 0, zlr |-> 0]
+RTVals == {-4, -2, -1, 1, 2, 4}
+RTCase(h) == [inputs |-> h, flags |-> RTRun(h, 1, RTZero)]
+RTCases(n) == {RTCase(h) : h \in [1..n -> RTVals]}
+(* the return flags are exclusive and imply "inside" *)
+ASSUME \A c \in RTCases(4) : \A k \in 1..4 : c.flags[k].zur + c.flags[k].zlr <= 1 /\ (c.flags[k].zur + c.flags[k].zlr >= 1 => c.flags[k].zi = 1)
+
 (* ---------------- anti-windup limiter on a state x with derivative e ---------------- *)
 AW(x, e, lo, hi, sl, su) ==
     LET hiE == su * hi
